@@ -204,7 +204,7 @@ func sinkFaults(r *ev.Run) {
 				total++
 				r.Eval(1)
 				r.Distinct(fmt.Sprintf("sf|%s|%d|%d", mode, k, vec))
-				errKind := (vec / 3) % 3
+				errKind := (vec / 3) % 4
 				r.Count(fmt.Sprintf("sink_fault_vectors_with_error_values:%d", errKind), 1)
 				for e := 0; e < seqLen; e++ {
 					names := make([]string, k)
@@ -226,6 +226,8 @@ func sinkFaults(r *ev.Run) {
 							werr = listErr{fmt.Sprintf("write-failed-dest%d-entry%d", j, e)}
 						case 2:
 							werr = errSentinel
+						case 3:
+							werr = (*nilErr)(nil) // an error value that cannot even be rendered
 						}
 						switch o {
 						case "zero+err":
@@ -252,6 +254,8 @@ func sinkFaults(r *ev.Run) {
 									errs[j] = listErr{fmt.Sprintf("core-failed-dest%d-entry%d", j, e)}
 								case 2:
 									errs[j] = errSentinel
+								case 3:
+									errs[j] = (*nilErr)(nil)
 								}
 								cores = append(cores, failCore{zapcore.DebugLevel, errs[j], &coreCalls[j]})
 							} else {
@@ -279,7 +283,7 @@ func sinkFaults(r *ev.Run) {
 					}
 					lg := zap.New(top, lopts...)
 					msg := fmt.Sprintf("entry-%d-%d-%d", k, vec, e)
-					wit := map[string]any{"mode": mode, "destinations": names, "entry": e, "level": lvl.String(), "stock_terminal_actions": realTerm, "development": dev, "error_values": []string{"distinct", "uncomparable type", "one shared sentinel"}[errKind]}
+					wit := map[string]any{"mode": mode, "destinations": names, "entry": e, "level": lvl.String(), "stock_terminal_actions": realTerm, "development": dev, "error_values": []string{"distinct", "uncomparable type", "one shared sentinel", "a nil pointer whose Error method panics"}[errKind]}
 					bad := func(class, f string, a ...any) {
 						r.Violate(ev.Violation{Case: id, Class: class, Msg: fmt.Sprintf("%s %v entry %d: ", mode, names, e) + fmt.Sprintf(f, a...), Witness: wit})
 					}
@@ -327,7 +331,7 @@ func sinkFaults(r *ev.Run) {
 							if e2 != nil {
 								nfail++
 							}
-							if e2 != nil && !strings.Contains(rep, e2.Error()) {
+							if e2 != nil && errKind != 3 && !strings.Contains(rep, e2.Error()) {
 								bad("not-reported", "the failure of destination %d (%v) is not named on the error output (got %q)", j, e2, rep)
 							}
 						}
